@@ -17,7 +17,8 @@ def gen(chk, mdl):
     # registered name or IPvFuture literal, user info, port (the authority comparison must see all of them)
     fam = ["s://10.0.0.1", "s://10.0.0.2", "s://10.0.3.1", "s://10.4.0.1", "s://5.0.0.1",
            "s://[2001:db8:0:1::10]", "s://[2001:db8:0:1::20]", "s://[2001:db8:0:1:0:0:1:10]", "s://[2001:db8:0:2::10]", "s://[2002:db8:0:1::10]", "s://[::ffff:1.2.3.4]", "s://[::ffff:1.2.3.5]",
-           "s://[v1.abc]", "s://[v1.abd]", "s://[v2.abc]", "s://v1.abc", "s://V1.ABC", "s://u@v1.abc", "s://u@[v1.abc]", "s://hostname", "s://hostnamf", "s://iostname", "s://u@hostname", "s://v@hostname", "s://hostname:80", "s://hostname:81"]
+           "s://[v1.abc]", "s://[v1.abd]", "s://[v2.abc]", "s://v1.abc", "s://V1.ABC", "s://u@v1.abc", "s://u@[v1.abc]", "s://hostname", "s://hostnamf", "s://iostname", "s://u@hostname", "s://v@hostname", "s://hostname:80", "s://hostname:81",
+           "s://hostname:080", "s://hostname:0", "s://hostname:", "s://hostname:00", "s://hostname:800", "s://1.2.3.4:0", "s://1.2.3.4:", "s://1.2.3.4:00"]     # port texts, not port numbers
     for h in fam:
         for pth in ("/app/index.html", "/app/login", ""):
             srcs.append(h + pth); bases.append(h + pth)
